@@ -405,6 +405,50 @@ def fix_arg_bounds(a, defs, rng, slack=0.08):
     return a
 
 
+def _kids(t):
+    """type/argument children of a type or argument spec"""
+    if not isinstance(t, list) or not t:
+        return []
+    k = t[0]
+    if k == "@sum":
+        return [x for row in t[1] for x in row]
+    if k == "@fn":
+        return [*t[1], *t[2]]
+    if k == "@poly":
+        return [*t[2], *t[3]]
+    if k == "@opaque":
+        return list(t[3])
+    if k == "@ext":
+        return list(t[2])
+    if k == "@ty":
+        return [t[1]]
+    if k == "@seq":
+        return list(t[1])
+    return []
+
+
+def _raises_somewhere(t, defs):
+    """some extension type inside `t` (as it is, or once resolved against `defs`) has a bound that raises"""
+    if isinstance(t, list) and t:
+        try:
+            if t[0] == "@opaque" and (t[4], t[1]) in defs:
+                _def_bound(defs[(t[4], t[1])][3], t[3])
+            elif t[0] == "@ext":
+                _def_bound(t[1][5], t[2])
+        except _Raises:
+            return True
+    return any(_raises_somewhere(x, defs) for x in _kids(t))
+
+
+def poly_order_corner(t, defs, nested=False):
+    """A polymorphic function type used as a row element / type argument whose body holds a type with a raising
+    bound: Python serialises the body first (IndexError), the shared type model (Tys.lean `encRow`/`encArg`)
+    reports the ValidationError of the misplaced PolyFuncType first.  Outside the generated fragment."""
+    if isinstance(t, list) and t and t[0] == "@poly" and nested and _raises_somewhere(t, defs):
+        return True
+    return any(poly_order_corner(x, defs, True) for x in _kids(t))
+
+
 def gen_custom(rng, U):
     known = [(e["name"], o) for e in U for o in e["ops"]]
     r = rng.random()
@@ -1070,6 +1114,14 @@ def _str_diff(a, b):
 
 
 def gen_ty_case(rng, kind=None):
+    for _ in range(50):
+        c = _gen_ty_case(rng, kind)
+        if not poly_order_corner(c["t"], c.pop("defs")):
+            return c
+    raise RuntimeError("generator")
+
+
+def _gen_ty_case(rng, kind=None):
     U = gen_universe(rng)
     reg = sub_registry(rng, U)
     defs = _defs_of(U)
@@ -1078,12 +1130,23 @@ def gen_ty_case(rng, kind=None):
         t = gen_ty(rng, U, rng.choice([1, 2, 3, 3, 4]))
         if rng.random() < 0.5:   # force the nesting of the statement: an opaque type in an argument of an opaque type
             t = rng.choice([["@sum", [[t], []]], ["@fn", [t], [gen_opaque(rng, U, 2)], []], t])
-        return {"kind": "ty", "reg": reg, "t": fix_bounds(t, defs, rng)}
+        return {"kind": "ty", "reg": reg, "t": fix_bounds(t, defs, rng), "defs": defs}
     a = gen_any_arg(rng, U, 3)
-    return {"kind": "arg", "reg": reg, "t": fix_arg_bounds(a, defs, rng)}
+    return {"kind": "arg", "reg": reg, "t": fix_arg_bounds(a, defs, rng), "defs": defs}
 
 
 def gen_op_case(rng):
+    for _ in range(50):
+        c = _gen_op_case(rng)
+        op = c["op"]
+        parts = [op[2], *op[5]] if isinstance(op, list) and op[0] == "@custom" else [op]
+        if not any(poly_order_corner(x, c["defs"], True) for x in parts):
+            del c["defs"]
+            return c
+    raise RuntimeError("generator")
+
+
+def _gen_op_case(rng):
     U = gen_universe(rng)
     reg = sub_registry(rng, U)
     defs = _defs_of(U)
@@ -1091,7 +1154,7 @@ def gen_op_case(rng):
         op = gen_custom(rng, U)
     else:
         op = bridge.gen_op(rng, rng.choice([k for k in bridge.OP_KINDS if k not in ("call", "loadfunc", "sugar")]), depth=2, partial=0.1)
-    return {"kind": "op", "reg": reg, "op": _fix_op_bounds(op, defs, rng)}
+    return {"kind": "op", "reg": reg, "op": _fix_op_bounds(op, defs, rng), "defs": defs}
 
 
 def gen_doc_cases(rng, nregs=3):
